@@ -190,17 +190,23 @@ Theorem C10_soa_chain_ok : forall ds w cur,
 Proof. exact (soa_chain_ok updater_checks_batch_soa). Qed.
 Print Assumptions C10_soa_chain_ok.
 
-Theorem C10_unchained_diff_accepted_refuted :
-  packs 251 unchained_witness_msgs [[Soa 64; Soa 62; Other 5; Other 11; Soa 64; Other 12; Soa 64]] /\
-  ~ soa_chain 60 [mkDiff 62 [5; 11] 64 [12]] /\
-  exists us st, run None unchained_witness_msgs = (us, SDone) /\
-    u_apply_all false us (u_start unchained_witness_old) = Ok st /\ u_fin st = true /\
-    z_first_soa (u_visible st) = Some 64.
-Proof. exact unchained_diff_accepted_refuted. Qed.
-Print Assumptions C10_unchained_diff_accepted_refuted.
-
 Theorem C10_unchained_batch_rejected : forall s w v rest,
   batch_soa_ok true s w = false ->
   u_apply_all true (UBeginDel s :: rest) (mkU v w true true false) = Err E_SoaMismatch.
 Proof. exact unchained_batch_rejected. Qed.
 Print Assumptions C10_unchained_batch_rejected.
+
+(* the updater's batch check is in the code (T1) *)
+Theorem C10_updater_checks_batch_soa : updater_checks_batch_soa = true.
+Proof. reflexivity. Qed.
+Print Assumptions C10_updater_checks_batch_soa.
+
+Theorem C10_unchained_rejected : forall snew ds1 d ds2 old,
+  chain_ok true ds1 old ->
+  batch_soa_ok true (d_old d) (fold_left (fun z x => apply_diff_z x z) ds1 old) = false ->
+  c10_apply old (ixfr_upds snew (ds1 ++ d :: ds2)) = Err E_SoaMismatch /\
+  (forall us1 us2 st, us1 ++ us2 = ixfr_upds snew (ds1 ++ d :: ds2) ->
+     c10_apply old us1 = Ok st ->
+     u_fin st = false /\ In (u_visible st) (scan ds1 old)).
+Proof. exact unchained_rejected. Qed.
+Print Assumptions C10_unchained_rejected.
